@@ -147,7 +147,7 @@ def check_rmi(ctx, rep, cl):
         rep.ob(cl + ".first-matching-group-wins", fn.name, okstop, "the group loop stops exactly when some pattern of the group matched (flag %s)" % flagvar, W(fn, outer.node))
         # does the flag get set on a path where nothing may have been replaced?
         f_paths = ctx.A.paths(f_av).paths
-        identity = [pp for pp in f_paths if pp.feasible() and pp.kind == "return" and pp.returned() == ("param", f_av.params[0])]
+        identity = [pp for pp in f_paths if pp.feasible() and pp.kind == "return" and pp.returned() == ("param", f_av.mparams[0])]
         out["identity_stop"] = bool(identity) and flagvar is not None
         from .secret_flow import AV
         av = AV(ctx)
